@@ -191,6 +191,21 @@ CLAIMS = {
     design_ref="DESIGN.md section 5 C06",
     note="Inputs are valid Unicode text. The compiler itself is exercised, not modelled.",
     technique="Lean 4 soundness theorems for the output checker (partial) + differential tie with the audit hook + mutation oracle on the compiler"),
+ "C14": dict(
+    category="proof",
+    text=("Proved: the streaming tokenizer's string reader (modelled after its Rust: one read per character, helpers "
+          "per escape) equals the reference JSON string parser (the model of the serde_json based loader) on EVERY "
+          "input — same text, same rest, same rejections (unknown escapes, bad hex, lone / reversed surrogates, raw "
+          "control characters, unterminated strings) — and both invert the compact serialisation and the all-ASCII "
+          "(\\uXXXX, surrogate pairs) serialisation of every string, at the fuel the loader really passes. NOT "
+          "proved (partial): equality of the two loaders above the token level (numbers, whitespace, object "
+          "structure) — decided by the tie and the oracle: for every document x layout (as emitted, all non-ASCII "
+          "escaped, pretty-printed two ways, with hostile text injected) the audit hook's rows of the default build, "
+          "of the stream-json-parser build and the model's audit rows are equal, and a random play gives the same "
+          "transcript under both builds."),
+    design_ref="DESIGN.md section 5 C14",
+    note="Documents keep the key order inkVersion, root, listDefs, which the streaming loader requires.",
+    technique="Lean 4 equivalence theorem for the two string readers (partial) + content-audit tie on both feature builds"),
 }
 
 REASONS_PENDING = "check not built yet in this revision of /verif (see DESIGN.md section 9.1 for the order of work)"
